@@ -402,7 +402,9 @@ Definition c_text (t : nty) (o : cobj) : option string := c_dispatch STop t o.
 (* Python: dataclasses.asdict + dict_factory + json.dumps                               *)
 (* ------------------------------------------------------------------------------------ *)
 
-Inductive pyexn : Type := PyTypeError | PyValueError.
+(* PyOtherError is never produced by the model: it stands for any other exception observed
+   on the implementation and is unequal to everything, itself included *)
+Inductive pyexn : Type := PyTypeError | PyValueError | PyOtherError.
 Inductive pyres (A : Type) : Type := POk (a : A) | PRaise (e : pyexn).
 Arguments POk {A} a.
 Arguments PRaise {A} e.
